@@ -71,6 +71,14 @@ def templates(cfg):
     T("rename_then_group", lambda p, t: t >> p.rename({"g": "h"}) >> p.group_by(t.g) >> p.summarize(n=p.count()))
     T("group_ungroup_summarize", lambda p, t: t >> p.group_by(t.g) >> p.ungroup() >> p.summarize(n=p.count()))
     T("hidden_key", lambda p, t: t >> p.group_by(t.g) >> p.select(t.g, t.b) >> p.summarize(s=t.b.sum()))
+    # summarize over exactly the rows present after slice_head (needs a subquery on SQL)
+    T("slice_then_ungrouped", lambda p, t: t >> p.arrange(t.a.nulls_last(), t.b.nulls_last(), t.g.nulls_last()) >> p.slice_head(2) >> p.summarize(n=p.count(), s=t.b.sum()))
+    T("slice_alias_then_ungrouped", lambda p, t: t >> p.arrange(t.a.nulls_last(), t.b.nulls_last(), t.g.nulls_last()) >> p.slice_head(2) >> p.alias("z") >> p.summarize(n=p.count(), s=p.C.b.sum()))
+    T("slice_alias_then_grouped", lambda p, t: t >> p.arrange(t.a.nulls_last(), t.b.nulls_last(), t.g.nulls_last()) >> p.slice_head(2) >> p.alias("z") >> p.group_by(p.C.g) >> p.summarize(n=p.count()))
+    T("slice_mutate_then_ungrouped", lambda p, t: t >> p.arrange(t.a.nulls_last(), t.b.nulls_last(), t.g.nulls_last()) >> p.slice_head(2) >> p.mutate(d=t.a + 1) >> p.summarize(n=p.count(), s=p.C.d.sum()))
+    T("all_null_group_sum", lambda p, t: t >> p.filter(t.b.is_null()) >> p.group_by(t.g) >> p.summarize(s=t.b.sum(), q=t.p.any(), r=t.p.all(), n=p.count()))
+    T("filter_arg_rejects_all", lambda p, t: t >> p.group_by(t.g) >> p.summarize(s=t.b.sum(filter=t.b < t.b), c=t.b.count(filter=t.b < t.b), q=t.p.all(filter=t.a.is_null() & t.a.is_not_null())))
+    T("window_agg_all_null", lambda p, t: t >> p.mutate(s=t.b.sum(partition_by=t.g), q=t.p.any(partition_by=t.g)))
     # string keys and string min/max
     T("str_key", lambda p, t: t >> p.group_by(t.s) >> p.summarize(n=p.count(), s2=t.b.sum()), S_STR, alphabet="ab", nmax=3)
     T("str_minmax", lambda p, t: t >> p.summarize(lo=t.s.min(), hi=t.s.max()), S_STR, alphabet="ab", nmax=3)
